@@ -243,7 +243,27 @@ func f9Dataflow(fn *ir.Function, ops []f9OpTag) (findings []string, checks, unna
 	return
 }
 
+// c09xProgram judges one F9 program. A violation is believed only if a second, independent evaluation of the same
+// program (fresh lowering, fresh clones) reports it again under the same key: an alarm that does not reproduce is
+// counted (unstable_violation_keys_dropped) and dropped, as the soundness policy demands (DESIGN.md 1.4).
 func c09xProgram(r *explore.Run, p *prog, st *c09Stats, xs *c09xStats) {
+	first := map[string]explore.Violation{}
+	c09xProgramOnce(r, p, st, xs, true, func(v explore.Violation) { first[v.Key] = v })
+	if len(first) == 0 {
+		return
+	}
+	second := map[string]explore.Violation{}
+	c09xProgramOnce(r, p, nil, nil, false, func(v explore.Violation) { second[v.Key] = v })
+	for k, v := range first {
+		if _, ok := second[k]; ok {
+			r.Violate(v)
+		} else {
+			r.Count("unstable_violation_keys_dropped", 1)
+		}
+	}
+}
+
+func c09xProgramOnce(r *explore.Run, p *prog, st *c09Stats, xs *c09xStats, count bool, sink func(explore.Violation)) {
 	fnName, key, ops := f9ParseTags(p.Case.Tags)
 	m, stage, err, pn := nagax.Front(p.Src)
 	if pn != nil || err != nil {
@@ -284,7 +304,7 @@ func c09xProgram(r *explore.Run, p *prog, st *c09Stats, xs *c09xStats) {
 		for a, b := range extra {
 			rp[a] = b
 		}
-		r.Violate(explore.Violation{Key: k, Detail: detail, Replay: rp})
+		sink(explore.Violation{Key: k, Detail: detail, Replay: rp})
 	}
 	for _, f := range rep.Findings {
 		violate("C09|"+f.Rule+"|"+errClass(f.Detail)+"|"+key, "lowered module of "+p.Sig+" breaks IR rule "+f.Rule+": "+f.Detail, nil)
